@@ -438,6 +438,14 @@ class Cascade:
         start_time = time.time()
 
         try:
+            if stage.checkpoint and not stage.checkpoint(input_signal):
+                return StageResult(
+                    stage_name=stage.name,
+                    status=StageStatus.BLOCKED,
+                    input_signal=input_signal,
+                    output_signal=None,
+                    processing_time_ms=(time.time() - start_time) * 1000
+                )
             output = stage.processor(input_signal)
             return StageResult(
                 stage_name=stage.name,
